@@ -132,3 +132,37 @@ fn c17_verify_samples() {
     kani::cover!(all_in);
     kani::cover!(!all_in);
 }
+
+// ================================================================================================
+// C10: the mid/side scratch frame buffer
+// ================================================================================================
+
+/// `resize` + `fill_stereo_with_iter` on a DIRTY stereo buffer (previous capacity larger or
+/// smaller, arbitrary stale samples and fill state): afterwards exactly the new pairs are visible
+/// through `channel_slice`, `filled_size` is the number of pairs, nothing stale.
+//@ unit props=C10,C01 tier=quick kind=bounded timeout=600 funcs="FrameBuf::resize; FrameBuf::fill_stereo_with_iter; FrameBuf::channel_slice (MSFRAMEBUF scratch)" bound="new capacity 3 with 2 pairs, previous capacity 2 or 5 with arbitrary contents"
+#[kani::proof]
+#[kani::unwind(12)]
+fn c10_ms_framebuf_reuse() {
+    c10_ms_framebuf_reuse_body(true);
+    c10_ms_framebuf_reuse_body(false);
+}
+fn c10_ms_framebuf_reuse_body(bigger: bool) {
+    let stale: [i32; 10] = kani::any();
+    let old_fill: usize = kani::any();
+    let mut fb = if bigger {
+        kani::assume(old_fill <= 5);
+        framebuf_from_parts(stale.to_vec(), 5, old_fill)
+    } else {
+        kani::assume(old_fill <= 2);
+        framebuf_from_parts(stale[0..4].to_vec(), 2, old_fill)
+    };
+    let m: [i32; 2] = kani::any();
+    let s: [i32; 2] = kani::any();
+    fb.resize(3);
+    fb.fill_stereo_with_iter([(m[0], s[0]), (m[1], s[1])].into_iter());
+    assert!(fb.size() == 3 && fb.channels() == 2 && fb.filled_size() == 2);
+    assert!(fb.channel_slice(0).len() == 2 && fb.channel_slice(1).len() == 2);
+    assert!(fb.channel_slice(0)[0] == m[0] && fb.channel_slice(0)[1] == m[1]);
+    assert!(fb.channel_slice(1)[0] == s[0] && fb.channel_slice(1)[1] == s[1]);
+}
